@@ -11,6 +11,7 @@ import (
 	"math/big"
 
 	"github.com/zenon-network/go-zenon/chain/nom"
+	"github.com/zenon-network/go-zenon/common/crypto"
 	"github.com/zenon-network/go-zenon/common/types"
 	"github.com/zenon-network/go-zenon/vm/constants"
 	"github.com/zenon-network/go-zenon/vm/embedded/definition"
@@ -67,8 +68,24 @@ func EcosystemScript(h *Hist) (int, error) {
 		definition.ABICommon.PackMethodPanic(definition.DonateMethodName), "accelerator.Donate znn")
 	submit(donor, types.AcceleratorContract, types.QsrTokenStandard, zq(int64(c.Int("eco.donQsr", 1, 30000))),
 		definition.ABICommon.PackMethodPanic(definition.DonateMethodName), "accelerator.Donate qsr")
+	// a hash-time-locked deposit whose beneficiary is drawn from users AND contracts, unlocked below with the preimage
+	htlcPre := c.Bytes("eco.htlcPre", 1, 32)
+	htlcLocked := h.Pools.Addrs[c.Pick("eco.htlcLocked", len(h.Pools.Addrs))]
+	htlc := submit(u(c.Int("eco.htlcFrom", 0, nu-1)), types.HtlcContract, types.ZnnTokenStandard, zq(int64(c.Int("eco.htlcAmt", 1, 50))),
+		definition.ABIHtlc.PackMethodPanic(definition.CreateHtlcMethodName, htlcLocked, h.A.Frontier().Timestamp.Unix()+3600, uint8(definition.HashTypeSHA3), uint8(32), crypto.Hash(htlcPre)),
+		"htlc.Create locked="+short(htlcLocked))
+	if htlc != nil {
+		h.Htlcs = append(h.Htlcs, HtlcSecret{Id: htlc.Hash, Preimage: htlcPre, Creator: htlc.Address, Locked: htlcLocked})
+	}
 	if err := produce(2); err != nil {
 		return ok, err
+	}
+	if htlc != nil && c.Weighted("eco.htlcUnlock", 1, 3) == 1 {
+		by := htlcLocked
+		if h.W.Keys.ByAddr[by] == nil {
+			by = u(c.Int("eco.htlcBy", 0, nu-1)) // proxy unlock (allowed unless the beneficiary denied it)
+		}
+		submit(by, types.HtlcContract, types.ZnnTokenStandard, zero, definition.ABIHtlc.PackMethodPanic(definition.UnlockHtlcMethodName, htlc.Hash, htlcPre), "htlc.Unlock")
 	}
 
 	// 2. registrations; every genesis pillar votes for the project
